@@ -143,6 +143,26 @@ fn mk_builder(
     raw::Builder::new_type(sink, ty)
 }
 
+/// in-memory build with the SAME cache geometry as the sink build it is compared with
+#[cfg(feature = "hooks")]
+pub fn vec_build_geom(ty: u64, geom: Option<(usize, usize)>, calls: &[Call]) -> Option<Vec<u8>> {
+    let mut b = match geom {
+        Some((r, c)) => raw::Builder::verif_new_with_cache(vec![], ty, r, c).ok()?,
+        None => raw::Builder::new_type(vec![], ty).ok()?,
+    };
+    for c in calls {
+        let _ = match c {
+            Call::Ins(k, v) => b.insert(k, *v),
+            Call::Add(k) => b.add(k),
+        };
+    }
+    b.into_inner().ok()
+}
+#[cfg(not(feature = "hooks"))]
+pub fn vec_build_geom(ty: u64, _geom: Option<(usize, usize)>, calls: &[Call]) -> Option<Vec<u8>> {
+    vec_build(ty, calls)
+}
+
 pub fn vec_build(ty: u64, calls: &[Call]) -> Option<Vec<u8>> {
     let mut b = raw::Builder::new_type(vec![], ty).ok()?;
     for c in calls {
@@ -352,7 +372,9 @@ pub fn cmd_sink(r: &mut Runner, t: &[&str]) -> String {
             calls.clone()
         };
         let ref_ty = if fe.starts_with("set") || fe.starts_with("map") { 0 } else { ty };
-        if let Some(want) = vec_build(ref_ty, &ref_calls) {
+        // (wrapper front ends always use the default geometry)
+        let ref_geom = if fe.starts_with("set") || fe.starts_with("map") { None } else { geom };
+        if let Some(want) = vec_build_geom(ref_ty, ref_geom, &ref_calls) {
             let held = &h.held[prefill.len()..];
             r.check(held == &want[..], || {
                 format!("C07 C09 C15 C01 C11 sink holds {} want {} : {}", show_bytes(held), show_bytes(&want), line)
